@@ -134,6 +134,36 @@ def coq_build(log: List[str]) -> bool:
     return True
 
 
+COQCHK_ALLOWED = {
+    "Coq.Logic.FunctionalExtensionality.functional_extensionality_dep",
+    "Coq.Reals.ClassicalDedekindReals.sig_not_dec",
+    "Coq.Reals.ClassicalDedekindReals.sig_forall_dec",
+    "Coq.Logic.Classical_Prop.classic",       # declared by the loaded Reals library; no theorem of Props/ depends on it
+}
+
+
+def run_coqchk() -> Dict[str, Any]:
+    """Re-check every compiled Props file (and everything it depends on) with Coq's independent checker; return the axioms of the
+    whole loaded context.  About a minute."""
+    mods = [f"PGF.Props.C{i:02d}" for i in range(1, 21)]
+    rc, out = run(["timeout", "1500", "coqchk", "-silent", "-o", "-Q", THEORIES, "PGF"] + mods, cwd=COQ, timeout=1600)
+    axioms = []
+    m = re.search(r"\* Axioms:(.*?)\n\s*\n\* ", out, flags=re.S)
+    if m:
+        axioms = [a.strip() for a in m.group(1).split("\n") if a.strip() and a.strip() != "<none>"]
+    problems = []
+    if rc != 0:
+        problems.append("coqchk failed: " + out[-1500:])
+    for key in ("type-in-type", "unsafe (co)fixpoints", "positivity is assumed"):
+        mm = re.search(re.escape(key) + r":\s*(.*)", out)
+        if not mm or "<none>" not in mm.group(1):
+            problems.append(f"coqchk: '{key}' is not <none>")
+    bad = [a for a in axioms if a not in COQCHK_ALLOWED]
+    if bad:
+        problems.append("coqchk: axioms outside the named standard-library set: " + ", ".join(bad))
+    return {"axioms": axioms, "problems": problems, "cmd": "coqchk -silent -o -Q theories PGF PGF.Props.C01 ... PGF.Props.C20"}
+
+
 FORBIDDEN = re.compile(
     r"\b(Admitted|admit|Axiom|Axioms|Parameter|Parameters|Conjecture|Admit Obligations|"
     r"Unset Guard Checking|Unset Positivity Checking|Unset Universe Checking|bypass_check|"
